@@ -28,8 +28,8 @@ func init() {
 }
 
 type bcWorld struct {
-	c  *mon.Case
-	b  *broadcast.Broadcast
+	c *mon.Case
+	b *broadcast.Broadcast
 	// fields below are only touched inside critical sections of b (the library's lock is held)
 	gen         int
 	sec         int64
